@@ -1094,8 +1094,6 @@ def coq_excluded(c, ref):
     nr = lambda d: len(d['numer']) if d['form'] == 'qube' else 0
     if b and c['op'] == 'truediv' and b['form'] == 'qube' and nr(b) > 0 and nr(c['a']) == 0:
         return True
-    if c['op'] == 'pow' and c['a'].get('cls') == 'Quaternion':
-        return True
     return False
 
 
